@@ -54,8 +54,7 @@ ID = "C36"
 LEVEL = "exploration"
 QUICK_N = 160000
 THOROUGH_N = 6000000
-CHUNK = 50  # small: the runner keeps only the first 6 violating scenarios of a chunk, and the
-# known cancelled-input defects would otherwise crowd every other key out
+CHUNK = 1000
 RULE = ("gen(seed): combinator in {multi list/dict, WaitIterator args/kwargs x next()/async-for, "
         "with_timeout abs/timedelta x 1-2 wrappers, chain_future x target pending/done/cancelled/"
         "settled-in-between}; <=4 distinct inputs (asyncio|concurrent, result|exception|cancelled, "
@@ -105,7 +104,7 @@ def _steps(rng, order, first_gaps, gaps):
 def gen(rng, tier, index):
     r = rng.random()
     comb = "multi" if r < 0.30 else "wait" if r < 0.62 else "timeout" if r < 0.86 else "chain"
-    cancel_on = rng.random() < 0.12
+    cancel_on = rng.random() < 0.30
     cf_on = rng.random() < 0.45
     scn = {"property": ID, "version": 1, "comb": comb}
 
@@ -130,12 +129,8 @@ def gen(rng, tier, index):
         inputs = [mk_input() for _ in range(n)]
         args = list(range(n))
         rng.shuffle(args)
-        dup = n >= 1 and rng.random() < (0.22 if comb == "multi" else 0.05)
+        dup = n >= 1 and rng.random() < (0.22 if comb == "multi" else 0.12)
         if dup:
-            if comb == "wait":  # keep the two known-broken regions apart
-                for sp in inputs:
-                    if sp["o"] == "cancel":
-                        sp["o"] = "res"
             for _ in range(rng.randint(1, 2)):
                 if len(args) < 4:
                     args.insert(rng.randint(0, len(args)), rng.choice(args))
@@ -153,9 +148,8 @@ def gen(rng, tier, index):
         scn["pre"] = pre
         scn["steps"] = _steps(rng, rest, [0, 1, 1, -1, 2], gaps)
         if comb == "wait":
-            plain = dup or any(sp["o"] == "cancel" for sp in inputs)
             scn["consumer"] = {
-                "mode": "next" if plain or rng.random() < 0.7 else "aiter",
+                "mode": "next" if rng.random() < 0.7 else "aiter",
                 "pauses": [rng.choice([0, 0, 0, 1, -1, 2, 3, 6]) for _ in range(len(args) + 1)],
             }
     elif comb == "timeout":
@@ -236,6 +230,36 @@ def validate(scn):
 
 # ----------------------------------------------------------------------------
 # helpers
+
+
+class LoopThreadBlocked(Exception):
+    """Raised instead of blocking: see _CF."""
+
+
+class _CF(cfut.Future):
+    """concurrent.futures.Future whose blocking waits cannot block the simulation.
+
+    Everything runs on the loop thread, which is also the only thread that will ever complete
+    the future: result()/exception() on a pending future without timeout would block it for
+    ever (in production: the IOLoop thread stuck in Condition.wait).  The run records that as a
+    violation (`<combinator>.blocks_loop_thread`) and raises instead of deadlocking the worker.
+    """
+
+    blocked = None  # set per run: callable(kind)
+
+    def result(self, timeout=None):
+        if not self.done():
+            if self.blocked is not None:
+                self.blocked("result")
+            raise LoopThreadBlocked("result() called on a pending concurrent future")
+        return super().result(0)
+
+    def exception(self, timeout=None):
+        if not self.done():
+            if self.blocked is not None:
+                self.blocked("exception")
+            raise LoopThreadBlocked("exception() called on a pending concurrent future")
+        return super().exception(0)
 
 
 def _is_cancel_exc(e):
@@ -320,8 +344,15 @@ def run(scn, full_log=False):
         sync = []  # per output: normalised exception raised synchronously by the call, or None
         tinfo = []  # timeout: per wrapper (D, settle_cb_time)
         yields = []  # wait: (kind, outcome, current_index, ident, seq_at, backlog)
-        W = {"it": None, "task": None, "overrun": False}
+        W = {"it": None, "task": None, "overrun": False, "ctor": None}
         chain = {"b_at_a": None, "ext": None}
+
+        blocked = []
+
+        def new_cf():
+            f = _CF()
+            f.blocked = blocked.append
+            return f
 
         def complete(i):
             f = futs[i]
@@ -479,11 +510,16 @@ def run(scn, full_log=False):
                     sync.append(_nexc(e))
             elif comb == "wait":
                 args = scn["args"]
-                if scn.get("form") == "dict" and args:
-                    W["it"] = gen.WaitIterator(**{"k%d" % p: futs[a] for p, a in enumerate(args)})
+                try:
+                    if scn.get("form") == "dict" and args:
+                        W["it"] = gen.WaitIterator(**{"k%d" % p: futs[a]
+                                                      for p, a in enumerate(args)})
+                    else:
+                        W["it"] = gen.WaitIterator(*[futs[a] for a in args])
+                except BaseException as e:
+                    W["ctor"] = _nexc(e)
                 else:
-                    W["it"] = gen.WaitIterator(*[futs[a] for a in args])
-                W["task"] = loop.create_task(consumer())
+                    W["task"] = loop.create_task(consumer())
             elif comb == "timeout":
                 for dl in scn.get("deadlines", [])[:2]:
                     d = max(0, int(dl.get("delay", 0))) * scale
@@ -508,7 +544,7 @@ def run(scn, full_log=False):
                         o.add_done_callback(lambda f, cell=cell: cell.__setitem__(1, loop.time()))
             elif comb == "chain":
                 tg = scn.get("target", {})
-                b = cfut.Future() if tg.get("k") == "cf" else loop.create_future()
+                b = new_cf() if tg.get("k") == "cf" else loop.create_future()
                 if tg.get("pre") == "done":
                     b.set_result("T")
                     chain["ext"] = ("res", "T")
@@ -526,7 +562,7 @@ def run(scn, full_log=False):
 
         async def main():
             for sp in inputs:
-                futs.append(cfut.Future() if sp["k"] == "cf" else loop.create_future())
+                futs.append(new_cf() if sp["k"] == "cf" else loop.create_future())
             for i in scn.get("pre", []):
                 fire(i, direct=True)
             pre_done = [f.done() for f in futs]
@@ -551,8 +587,16 @@ def run(scn, full_log=False):
             S["at_idle"] = [_state(o) for o in outs]
             S["consumer_done_at_idle"] = W["task"].done() if W["task"] is not None else None
 
-        status = env.run(main())
+        try:
+            status = env.run(main())
+        except BaseException as e:  # a BaseException from a callback tore through run_forever
+            status = "error:" + type(e).__name__
+            env.main_exception = e
         S["stop"] = True
+        if blocked:
+            bad(f"{comb}.blocks_loop_thread", f"{blocked[0]}() without timeout called on a "
+                f"still-pending concurrent.futures input from the loop thread ({len(blocked)}x): "
+                f"the IOLoop thread would block for ever", "other")
         if status != "done":
             bad("harness.main_" + status.split(":")[0],
                 f"driver did not finish: {status} {getattr(env, 'main_exception', None)!r}")
@@ -655,6 +699,9 @@ def run(scn, full_log=False):
                 tags.append("input_cancelled")
             tag = "+".join(tags) if tags else "other"
             task = W["task"]
+            if W["ctor"] is not None:
+                bad("waititer.constructor_raised", f"WaitIterator(...) raised {W['ctor']}",
+                    _ename(W["ctor"]) + "/" + tag)
             seen = {}
             ys = [y for y in yields if y[0] == "y"]
             for kind, oc, cidx, idn, _seq in yields:
